@@ -18,6 +18,9 @@ pub struct Target {
     pub check: fn(&Value, &mut Stats) -> crate::engine::CheckResult,
 }
 
+/// Generated sub-checks whose oracle relies on catching an expected panic.
+pub const NOT_UNDER_LIBFUZZER: [(&str, &str); 1] = [("C19", "append_to_full_list")];
+
 static TARGETS: OnceLock<Vec<Target>> = OnceLock::new();
 
 pub fn targets() -> &'static Vec<Target> {
@@ -32,6 +35,11 @@ pub fn targets() -> &'static Vec<Target> {
                 }
             }
             for sc in p.subchecks {
+                // libfuzzer-sys aborts the process on *any* panic, including the ones an oracle provokes on purpose
+                // and catches (a full fixed-capacity list must refuse by panicking): such sub-checks stay out
+                if NOT_UNDER_LIBFUZZER.contains(&(p.id, sc.name)) {
+                    continue;
+                }
                 if let Driver::Generated { gen, .. } = sc.driver {
                     v.push(Target { prop: p.id, sub: sc.name, gen, check: sc.check });
                 }
